@@ -1407,7 +1407,6 @@ func genMvccSession(rng *rand.Rand, st *Stats) []string {
 	keep := pick(rng, 1, 1, 2, 3, 1000)
 	thr := pick(rng, 16, 16, 64, 100000)
 	levels := pick(rng, 3, 4, 5, 7)
-	usedDropAll := false // DropAll also removes the end-of-transaction markers MaxVersion() looks at
 	inmem := rng.Intn(6) == 0
 	if params["inmem"] != "" {
 		inmem = params["inmem"] == "1"
@@ -1481,6 +1480,34 @@ func genMvccSession(rng *rand.Rand, st *Stats) []string {
 			rts := uint64(0)
 			if managed {
 				rts = math.MaxUint64
+			}
+			if rng.Intn(2) == 0 {
+				// variant: a base-level table [w..y]; two L0 tables with DISJOINT ranges, [a..c] (older)
+				// and [x..z] (newer, overlapping the base table); DropPrefix must compact ALL of L0
+				// together with every base table they overlap
+				st.Inc("scenario_drop_disjoint_l0")
+				groups := [][][]byte{{{0x77}, {0x78}, {0x79}}, {{0x61}, {0x62}, {0x63}}, {{0x78}, {0x7a}}}
+				for gi, g := range groups {
+					ops = append(ops, fmt.Sprintf("begin %d 1 %d", nextID, rts))
+					for _, k := range g {
+						ops = append(ops, fmt.Sprintf("set %d %s 0 %d 0 %s 0", nextID, hx(k), gi+1, hx(genVal())))
+					}
+					c := uint64(0)
+					if managed {
+						cts++
+						c = cts
+						for _, k := range g {
+							keyMax[string(k)] = c
+						}
+					}
+					ops = append(ops, fmt.Sprintf("commit %d %d", nextID, c), "flush")
+					nextID++
+					if gi == 0 {
+						ops = append(ops, "compact this=0 id=1 adj=1.5")
+					}
+				}
+				ops = append(ops, "dropprefix "+hx(pick(rng, []byte{0x61}, []byte{0x62}, []byte{0x7a})))
+				continue
 			}
 			ops = append(ops, fmt.Sprintf("begin %d 1 %d", nextID, rts))
 			sk := append([][]byte{}, keys...)
@@ -1770,7 +1797,6 @@ func genMvccSession(rng *rand.Rand, st *Stats) []string {
 				open = nil
 				if rng.Intn(5) == 0 {
 					ops = append(ops, "dropall")
-					usedDropAll = true
 				} else {
 					k := keys[rng.Intn(len(keys))]
 					p := k[:1+rng.Intn(len(k))]
@@ -1781,7 +1807,7 @@ func genMvccSession(rng *rand.Rand, st *Stats) []string {
 					}
 					ops = append(ops, o)
 				}
-			} else if !inmem && !usedDropAll && rng.Intn(2) == 0 {
+			} else if !inmem && rng.Intn(2) == 0 {
 				// Close + Open in the middle of the history (no transaction survives it)
 				open = nil
 				ops = append(ops, "reopen")
